@@ -7,6 +7,8 @@ From VQ Require Import Model.Einops Glue.EinopsGlueBase Glue.EinopsGlueMask.
 From VQ Require Import Glue.LensGlue.
 From VQ Require Import Glue.Pin_fp_C09.
 From VQ Require Import Proofs.EinopsProofs Proofs.EinopsRepeat.
+From VQ Require Import Model.NonFinite Proofs.NonFiniteProofs Glue.NonFiniteGlue.
+From VQ Require Import Glue.Pin_o_vq_mask_proj Glue.Pin_o_rvq_mask_proj.
 Import ListNotations.
 Open Scope R_scope.
 
@@ -183,3 +185,81 @@ Theorem C09_mask_replication_is_broadcast :
        @rearr A p e X o1 = @rearr A p e X o2.
 Proof. exact (@EinopsRepeat.repeat_broadcasts). Qed.
 Print Assumptions C09_mask_replication_is_broadcast.
+
+(* implicit *)
+Theorem C09_vq_projection_wgrad_finite :
+  forall (dout din : nat) (valid : list bool) (xs gs : list (list X)),
+       rows_fin_on valid xs ->
+       all_fin gs ->
+       @mfin R (@proj_wgrad R R_ops (zero_first_of o_vq_mask_proj.o_vq_mask_proj) dout din valid xs gs) =
+       true.
+Proof. exact (@NonFiniteGlue.vq_projection_wgrad_finite). Qed.
+Print Assumptions C09_vq_projection_wgrad_finite.
+
+(* implicit *)
+Theorem C09_rvq_projection_wgrad_finite :
+  forall (dout din : nat) (valid : list bool) (xs gs : list (list X)),
+       rows_fin_on valid xs ->
+       all_fin gs ->
+       @mfin R (@proj_wgrad R R_ops (zero_first_of o_rvq_mask_proj.o_rvq_mask_proj) dout din valid xs gs) =
+       true.
+Proof. exact (@NonFiniteGlue.rvq_projection_wgrad_finite). Qed.
+Print Assumptions C09_rvq_projection_wgrad_finite.
+
+(* implicit *)
+Theorem C09_vq_projection_padding_independent :
+  forall (dout din : nat) (W : list (list X)) (b : list X) (valid : list bool)
+         (xs xs' gs : list (list X)),
+       agree valid xs xs' ->
+       @proj_out R R_ops (zero_first_of o_vq_mask_proj.o_vq_mask_proj) W b valid xs =
+       @proj_out R R_ops (zero_first_of o_vq_mask_proj.o_vq_mask_proj) W b valid xs' /\
+       @proj_wgrad R R_ops (zero_first_of o_vq_mask_proj.o_vq_mask_proj) dout din valid xs gs =
+       @proj_wgrad R R_ops (zero_first_of o_vq_mask_proj.o_vq_mask_proj) dout din valid xs' gs.
+Proof. exact (@NonFiniteGlue.vq_projection_padding_independent). Qed.
+Print Assumptions C09_vq_projection_padding_independent.
+
+(* implicit *)
+Theorem C09_rvq_projection_padding_independent :
+  forall (dout din : nat) (W : list (list X)) (b : list X) (valid : list bool)
+         (xs xs' gs : list (list X)),
+       agree valid xs xs' ->
+       @proj_out R R_ops (zero_first_of o_rvq_mask_proj.o_rvq_mask_proj) W b valid xs =
+       @proj_out R R_ops (zero_first_of o_rvq_mask_proj.o_rvq_mask_proj) W b valid xs' /\
+       @proj_wgrad R R_ops (zero_first_of o_rvq_mask_proj.o_rvq_mask_proj) dout din valid xs gs =
+       @proj_wgrad R R_ops (zero_first_of o_rvq_mask_proj.o_rvq_mask_proj) dout din valid xs' gs.
+Proof. exact (@NonFiniteGlue.rvq_projection_padding_independent). Qed.
+Print Assumptions C09_rvq_projection_padding_independent.
+
+(* implicit *)
+Theorem C09_zero_after_wgrad_refuted :
+  exists (valid : list bool) (xs gs : list (list X)),
+         rows_fin_on valid xs /\ all_fin gs /\ @mfin R (@proj_wgrad R R_ops false 1 1 valid xs gs) = false.
+Proof. exact (@NonFiniteProofs.zero_after_wgrad_refuted). Qed.
+Print Assumptions C09_zero_after_wgrad_refuted.
+
+(* implicit *)
+Theorem C09_zero_after_out_padding_independent :
+  forall (W : list (list X)) (b : list X) (valid : list bool) (xs xs' : list (list X)),
+       agree valid xs xs' -> @proj_out R R_ops false W b valid xs = @proj_out R R_ops false W b valid xs'.
+Proof. exact (@NonFiniteProofs.zero_after_out_padding_independent). Qed.
+Print Assumptions C09_zero_after_out_padding_independent.
+
+(* implicit *)
+Theorem C09_projection_out_finite :
+  forall (W : list (list X)) (b : list X) (valid : list bool) (xs : list (list X)),
+       @mfin R W = true ->
+       @vfin R b = true -> rows_fin_on valid xs -> all_fin (@proj_out R R_ops true W b valid xs).
+Proof. exact (@NonFiniteProofs.zero_first_out_finite). Qed.
+Print Assumptions C09_projection_out_finite.
+
+(* implicit *)
+Theorem C09_tie_vq_mask_proj_pin :
+  o_vq_mask_proj.o_vq_mask_proj = pinned_o_vq_mask_proj.
+Proof. exact (@Pin_o_vq_mask_proj.pin_o_vq_mask_proj). Qed.
+Print Assumptions C09_tie_vq_mask_proj_pin.
+
+(* implicit *)
+Theorem C09_tie_rvq_mask_proj_pin :
+  o_rvq_mask_proj.o_rvq_mask_proj = pinned_o_rvq_mask_proj.
+Proof. exact (@Pin_o_rvq_mask_proj.pin_o_rvq_mask_proj). Qed.
+Print Assumptions C09_tie_rvq_mask_proj_pin.
